@@ -115,6 +115,11 @@ class ConstructPipeline(RewritePattern):
         if len(stages) < 2:
             return
 
+        # the prologue and epilogue of the unrolled pipeline run the first and the
+        # last (stages - 1) iterations unconditionally
+        if (ub := extract_cst_index(op.ub)) is not None and ub < len(stages) - 1:
+            return
+
         # at this point, the correct pipeline is detected, now we should create the
         # operations for it
 
